@@ -18,7 +18,7 @@ from klongpy.core import KGChar, KGSym
 
 from harness.canon import canon as _canon0, fbits
 
-BUDGET = 3000          # interpreter evaluations per case (deterministic kill budget; never wall-clock)
+BUDGET = 1500          # interpreter evaluations per case (deterministic kill budget; never wall-clock)
 
 
 def canon(v):
@@ -104,7 +104,7 @@ MONADS = {
     "py": ("pym", "pym(p)"),                       # Python callable, logs its calls
 }
 PREDS = {
-    "lt10": "{x<10}", "lt0": "{x<0}", "never": "{0}", "short": "{(#x)<4}", "lt100": "{x<100}",
+    "lt10": "{x<10}", "lt0": "{x<0}", "never": "{0}", "short": "{(#x)<4}", "lt30": "{x<30}",
 }
 
 ADVERBS = {
@@ -156,7 +156,7 @@ class World:
 
     # one separately evaluated application of the verb
     def tick(self):
-        self.count += 8            # one application costs the interpreter about that many evaluations
+        self.count += 4            # an application made by the harness also counts
         if self.count > BUDGET:
             raise Budget()
 
